@@ -107,6 +107,11 @@ func c14Case(rep *Report, cfg engine.Config, prior []engine.Op, re engine.Op, fu
 				}
 				capAfter = probeCapacity(e)
 				e.VerifyCommitted("after resize")
+				// every page of the meta area is accounted for after the transactions the open ran (D25)
+				e.CheckAllocator("after the max-size update")
+				if txfile.Flag(op.Flags)&txfile.FlagUnboundMaxSize != 0 && s.MaxPages != 0 {
+					extra = append(extra, fmt.Sprintf("opened with FlagUnboundMaxSize (MaxSize option %d): the file is bounded to %d pages", op.MaxSize, s.MaxPages))
+				}
 				if oldMaxPages > 0 && newMaxPages > oldMaxPages && capBefore >= 0 && capAfter >= 0 && livePlusMeta <= oldMaxPages {
 					if capAfter-capBefore != int(newMaxPages-oldMaxPages) {
 						extra = append(extra, fmt.Sprintf("growing from %d to %d pages made %d more pages allocatable (capacity %d -> %d)", oldMaxPages, newMaxPages, capAfter-capBefore, capBefore, capAfter))
@@ -215,8 +220,26 @@ func init() {
 			re := engine.Op{Kind: "reopen", Flags: uint64(txfile.FlagUpdMaxSize), MaxSize: sizes[hr.Intn(len(sizes))], Prealloc: hr.Intn(3) == 0}
 			if re.MaxSize == 0 {
 				re.Flags |= uint64(txfile.FlagUnboundMaxSize)
+			} else if hr.Intn(6) == 0 {
+				// the flag wins over whatever MaxSize says (also values that would be too small for a bounded file)
+				re.Flags |= uint64(txfile.FlagUnboundMaxSize)
+				re.MaxSize = []uint64{4096, 16384, 70000, 1 << 20}[hr.Intn(4)]
+				rep.count("scenario:unbound-flag-with-a-max-size-option", 1)
 			}
 			shrunkFurther := 0
+			if i%8 == 2 {
+				// the end of the file is free: the shrinking open releases those pages in a transaction of its own
+				// (which writes a new free list and has to give the pages of the old one back: D25)
+				live := 100 + hr.Intn(80)
+				cfg = engine.Config{PageSize: 1024, MaxSize: 256 * 1024, InitMetaArea: uint32(4 + hr.Intn(16))}
+				prior = []engine.Op{{Kind: "begin"}, {Kind: "alloc", N: live}, {Kind: "setfull", P: 3, Seed: 9}, {Kind: "setroot", P: 3}, {Kind: "commit"}, {Kind: "begin"}}
+				for k := 0; k < 30+hr.Intn(40); k++ {
+					prior = append(prior, engine.Op{Kind: "free", P: live - 1 - k})
+				}
+				prior = append(prior, engine.Op{Kind: "commit"})
+				re = engine.Op{Kind: "reopen", Flags: uint64(txfile.FlagUpdMaxSize), MaxSize: 64 * 1024, Prealloc: hr.Intn(2) == 0}
+				rep.count("scenario:shrink-with-free-pages-at-the-end-of-the-file", 1)
+			}
 			if i%8 == 6 {
 				// shrink below the extent of the file, then raise the limit to a value that is still below the extent
 				// (D20, D21): every live page stays readable and writable, with and without preallocation
